@@ -19,8 +19,8 @@ CHECKS = {
             "DESIGN.md C15"),
     "C17": ("hypothesis+fork-differential",
             "exploration",
-            "differential property testing: generated sequences A1..Ak;B, B alone in a fresh fork vs B after A*, plus a class-attribute snapshot monitor",
-            "Generated document sequences (registers, classes, packages, math/lists left open, \\openout, ...) are processed in one interpreter and B's canonicalised tree (and HTML5 files in the 'rendered' stream) is compared with B processed alone in a fresh fork; a monitor diffs every class attribute of every plasTeX class against its import-time value after every document. Exploration: held on the generated sequences, except the listed known finding.",
+            "differential property testing: generated sequences A1..Ak;B, B alone in a fresh fork vs B after A*, plus a state snapshot monitor (class attributes, module-level containers, os.environ, working directory)",
+            "Generated document sequences (registers, classes, packages, math/lists left open, \\openout, file lookups, bibliographies sharing keys, ...; documents given as strings or as files in their own directory) are processed in one interpreter and B's canonicalised tree (and HTML5 files in the 'rendered' stream) is compared with B processed alone in a fresh fork; a monitor diffs every class attribute of every plasTeX class, the module-level containers, os.environ and the working directory against their import-time values after every document; a complete enumeration of ordered fragment pairs runs beside the random sequences. Exploration: held on the generated sequences, except the listed known finding.",
             "Trusted: fork of a process that imported plasTeX but processed nothing is a 'fresh interpreter'; id canonicalisation; '@' caches and Node._mixed_ book-keeping are not parsing state. Known finding: article class patches shared index/bibliography classes (known_findings.json).",
             "DESIGN.md C17"),
 
@@ -33,7 +33,7 @@ CHECKS = {
     "C04": ("hypothesis+stateful+exhaustive",
             "exploration",
             "model-based property testing: generated balanced programs run against a TeX save-stack scoping model; Hypothesis RuleBasedStateMachine and a complete enumeration on the Context API against a stack-of-frames model",
-            "Source level: generated balanced nestings of 12 group kinds with local/global definitions, \\let, catcodes, counters, \\newif and probes; expected visible text known by construction from a save-stack model; context depth back to initial. API level: random histories (<= 40 steps) and every sequence of length <= 5 (<= 6 thorough) over a 15-op alphabet, invariants (look-up identity, membership, get_let, whichCode, depth, catcode-table aliasing) after every step. Exploration; the API enumeration is complete for its bound.",
+            "Source level: generated balanced nestings of 15 group kinds (braces, \\begingroup, LaTeX and \\newenvironment environments, math, cells, macro arguments) with local/global definitions, \\let, catcodes, counters, \\newif and probes; expected visible text known by construction from a save-stack model; context depth back to initial. API level: random histories (<= 40 steps) and every sequence of length <= 5 (<= 6 thorough) over a 15-op alphabet, invariants (look-up identity, membership, get_let, whichCode, depth, catcode-table aliasing) after every step. Exploration; the API enumeration is complete for its bound.",
             "Trusted: models/scopemodel.py (TeX save-stack semantics, tex.web 268-284). Known findings listed: \\global prefix is a no-op, \\newcommand in a group is global, character \\let resolved by the tokenizer (excluded by construction).",
             "DESIGN.md C04"),
     "C06": ("hypothesis-stateful+exhaustive",
@@ -46,7 +46,7 @@ CHECKS = {
             "exploration",
             "property-based testing over a generated LaTeX document grammar with unique marker words; oracle = predictions computed from the generated AST (marker order, tree well-formedness predicates, charsub rules)",
             "Generated article/book/report documents (sectioning, paragraphs, fonts, lists, tabulars, floats, math, verbatim, theorems, footnotes, labels) are parsed; a depth-first walk (arguments before children) must meet every marker exactly once in source order, every node exactly once with a parent chain through its actual containers, sectioning units must nest by level, paragraphs never nest, and quote/dash substitutions appear in running text and never in verbatim or mathematics. Exploration.",
-            "Trusted: models/latexdoc.py (AST -> source + predictions, no plasTeX import). Parent-chain oracle (2) was exercised by no surviving-baseline mutant (stated weakness).",
+            "Trusted: models/latexdoc.py (AST -> source + predictions, no plasTeX import). Parent-chain oracle (2) is reached only by a two-site mutant (single-site ones are equivalent: parent links are set redundantly).",
             "DESIGN.md C07"),
     "C08": ("hypothesis+exhaustive",
             "exploration",
